@@ -7,6 +7,7 @@ CONSTANTS
  FamStreams <- NoValues  FamBase = 3  FamGroups <- NoValues
  ParkA <- NoValues  ParkB <- NoValues
  EncN <- NoValues
+ HashU <- RichU  HashV <- RichV
  Volume = FALSE
  MinSteps = 12  MaxSteps = 12
 CONSTRAINT Emit
